@@ -18,6 +18,17 @@ CLAIMED = {
              "is modelled and checked by correspondence and by the statement-level oracle, its top-level theorem is not yet proved.",
         technique="Lean 4 proof (induction over the accept loop and rule groups) + differential correspondence with the real scheduler",
     ),
+    "C17": dict(
+        text="Machine-checked proof: (1) the 216-entry pair table regenerated from the running simplify_boolean_expressions is sound for all "
+             "integers (decide + lifting lemma) and rank-decreasing; (2) the n-ary bound analysis is value-preserving for every list of "
+             "constraints, valuation and other operands, for any table passing the two checks (closure argument); (3) negation / De Morgan and "
+             "negated-comparison flipping over the regenerated REVERSE_OPERATOR_MAPPING; (4) range-filter folding for literal bounds, any "
+             "visiting order; (5) closed form of sum(range(a,b)) for a<=b, with a counterexample theorem for a>b. 15 theorems.",
+        design="4/C17",
+        note="Trusted: Lean kernel; models BoolSimp/Cond/RangeFold/SumRange tied by the bounds, negate, rangefold, sumrange suites; sympy.simplify "
+             "is external (its rewrites are only truth-table checked); value-vs-truthiness of and/or operands belongs to C02.",
+        technique="Lean 4 proof (decide over regenerated tables + lifting lemmas, induction) + differential correspondence + truth-table oracle",
+    ),
 }
 
 NOT_YET = {}
